@@ -92,6 +92,10 @@ class TlcResult:
                     res.append(json.loads(s[len(pre2):]))
                 except Exception:
                     pass
+        # TLC's workers print in a nondeterministic order; drivers derive per-case choices (goroutine count,
+        # random data, hooked or public API) from the position of a case, and a verdict is only reported when a
+        # complete re-run reproduces the same event -> the order must be canonical.
+        res.sort(key=lambda x: json.dumps(x, sort_keys=True))
         return res
 
 
